@@ -220,6 +220,9 @@ class FormattedValue(ExpressionPrinter):
         self.printer.append(s, TokenTypes.NonNumberLiteral)
 
     def visit_Bytes(self, node):
+        if self.printer.previous_token in [TokenTypes.Identifier, TokenTypes.Keyword, TokenTypes.SoftKeyword]:
+            # The literal starts with its b prefix, which must not run into a preceding name or keyword
+            self.printer.delimiter(' ')
         try:
             s = str(Bytes(node.s, self.allowed_quotes))
         except Exception:
